@@ -174,9 +174,17 @@ def check(c):
     ic = c.func(CL, 'init_clean')
     rm = [n for n in c.idx.walk(ic.node) if isinstance(n, ast.Assign)
           and norm(n.targets[0]) == 'rm_dirs']
+    # every value rm_dirs can take is the sanitised set or None
+    # (`parse_rm_dirs(opts.rm_dirs) if opts.rm_dirs else None`, in either
+    # spelling)
+    vals = {norm(r.value) for r in rm}
     c.ob('C38.rm-option', f'{ic.fq} :: rm_dirs = parse_rm_dirs(opts.rm_dirs)',
-         len(rm) == 1 and norm(rm[0].value).startswith(
-             'parse_rm_dirs(opts.rm_dirs)'), c.where(ic.node, ic), '')
+         bool(rm) and vals <= {'parse_rm_dirs(opts.rm_dirs)', 'None'} and
+         'parse_rm_dirs(opts.rm_dirs)' in vals, c.where(ic.node, ic),
+         str(sorted(vals)))
+    for r in rm:
+        if norm(r.value) == 'None':
+            c.guard('C38.rm-option', r, ['!opts.rm_dirs'], ic)
     for n in c.find(ic, 'clean(id_, local_run_dir, rm_dirs)'):
         c.ob('C38.rm-option', c.key(n, ic) + ' sanitised set', True,
              c.where(n, ic), '')
